@@ -105,8 +105,9 @@ class Frame:
         self.module = module
         self.cls = cls
         self.handlers: list = []  # stack of sets of exception names caught by enclosing try blocks
-        self.loops = extract.loops_preorder(fn_node) if fn_node is not None else []
-        self.is_generator = fn_node is not None and any(
+        is_def = isinstance(fn_node, (ast.FunctionDef, ast.AsyncFunctionDef))
+        self.loops = extract.loops_preorder(fn_node) if is_def else []
+        self.is_generator = is_def and any(
             isinstance(n, (ast.Yield, ast.YieldFrom)) for n in _walk_own(fn_node)
         )
         self.trace: list = []
@@ -268,8 +269,10 @@ class Interp:
             return v
         if name in self.V.spec_ns and self.V.in_contract_expr:
             return self.V.spec_ns[name]
+        if self.V.in_contract_expr and name in getattr(self, "ghost", {}):
+            return self.ghost[name]
         fr = self.frame
-        if name in self.V.contract_globals(fr.qual):
+        if self.V.in_contract_expr and name in self.V.contract_globals(fr.qual):
             return self.V.global_value(self, name)
         m = fr.module
         if m is not None:
@@ -278,6 +281,8 @@ class Interp:
                 return v
         if name in BUILTINS:
             return BUILTINS[name]
+        if name in self.V.contract_globals(fr.qual):
+            return self.V.global_value(self, name)
         if name in self.V.spec_ns:
             return self.V.spec_ns[name]
         raise Unsupported(f"unknown name {name!r} in {fr.qual}")
@@ -428,6 +433,8 @@ class Interp:
         return self.binop(n.op, a, b, n)
 
     def binop(self, op, a, b, node=None):
+        if isinstance(a, Opaque) or isinstance(b, Opaque):
+            return Opaque("binop")
         if not is_sym(a) and not is_sym(b) and not isinstance(a, (Obj, Opaque, PyList, PyDict)) and not isinstance(b, (Obj, Opaque, PyList, PyDict)):
             return _PYOPS[type(op)](a, b)
         if isinstance(a, PyList) and isinstance(b, PyList) and isinstance(op, ast.Add):
@@ -766,6 +773,9 @@ class Interp:
         return list_slice(self.ctx, l, lo, hi)
 
     def index(self, base, idx, node=None):
+        if isinstance(base, SV) and isinstance(base.ty, OptT):
+            self.implicit("TypeError", z3.simplify(sort_of(base.ty).recognizer(1)(base.t)), "subscript-not-None", node)
+            base = unpack(self.ctx, sort_of(base.ty).accessor(1, 0)(base.t), base.ty.elem)
         if isinstance(base, PyDict):
             if not is_sym(idx):
                 self.implicit("KeyError", idx in base.d, "key-present", node)
